@@ -127,6 +127,105 @@ pub fn run_probe(prop: &str, r: &mut Rng, budget: usize) -> ProbeReport {
     p
 }
 
+// ---------------- small-scope exhaustive enumerations shared by several probes ----------------
+
+/// all words of length 1..=maxlen over `alpha`
+pub fn words_over(alpha: &[char], maxlen: usize) -> Vec<String> {
+    let mut all: Vec<String> = vec![];
+    let mut frontier: Vec<String> = vec![String::new()];
+    for _ in 0..maxlen {
+        let mut next = vec![];
+        for s in &frontier { for c in alpha { let mut t = s.clone(); t.push(*c); next.push(t); } }
+        all.extend(next.iter().cloned());
+        frontier = next;
+    }
+    all
+}
+
+/// every hit of a search on a store, checked against the hit-level clauses of C02 / C05 / C09
+/// (sentinel markers): balanced word-aligned non-empty spans, at most one per word, title = composed source,
+/// span length bounded by the query stretch + 1
+pub fn hit_invariants(lang: &core::Lang, scn: &Scn, q: &str, hits: &[(usize, String)]) -> Result<(), String> {
+    let tq = tokenize_query(q, lang);
+    let stretch = if tq.words.is_empty() { 0 } else { tq.words.last().unwrap().slice.1 - tq.words[0].slice.0 };
+    for (id, title) in hits {
+        if title.contains('\0') { return Err(format!("title of hit {} contains NUL", id)); }
+        let (plain, spans) = parse_marked(title).ok_or(format!("markers unbalanced in {:?}", title))?;
+        if tq.words.is_empty() != spans.is_empty() { return Err(format!("query words {} but {} spans in {:?}", tq.words.len(), spans.len(), title)); }
+        let rec = scn.recs.iter().filter(|e| e.0 == *id).find(|e| stripped_index(&tokenize_record(&e.1, lang)).0 == plain)
+            .ok_or(format!("hit ({}, {:?}) is not the composed title of a stored record", id, plain.iter().collect::<String>()))?;
+        let t = tokenize_record(&rec.1, lang);
+        let (_, idx) = stripped_index(&t);
+        let mut used = BTreeSet::new();
+        for (s, l) in &spans {
+            if *l == 0 { return Err(format!("empty span in {:?}", title)); }
+            let wi = t.words.iter().position(|w| idx[w.slice.0] == *s).ok_or(format!("span at {} does not start a word in {:?}", s, title))?;
+            if !used.insert(wi) { return Err(format!("word {} highlighted twice in {:?}", wi, title)); }
+            if s + l > idx[t.words[wi].slice.1] { return Err(format!("span at {} runs past its word in {:?}", s, title)); }
+            let norm_len = (t.words[wi].slice.0..t.chars.len()).take_while(|k| idx[*k] < s + l).count();
+            if norm_len > stretch + 1 { return Err(format!("span of {} normalised characters exceeds the typed stretch {} + 1 in {:?} for query {:?}", norm_len, stretch, title, q)); }
+        }
+    }
+    Ok(())
+}
+
+/// C03 / C09 / C14 small scope: one- and two-word titles over a tiny alphabet with gaps of width 1..3, queried with
+/// every prefix, every split spelling and the run-together spelling (+ a cheap tail); every hit list is also
+/// checked for the hit-level invariants
+pub fn small_scope_titles(p: &mut ProbeReport, code: &str, which: &str, maxlen: usize) {
+    let lang = make_lang(code);
+    let special = adversarial_alphabet(code)[9];
+    let alpha = ['a', 'b', special];
+    let words = words_over(&alpha, maxlen);
+    let gaps = [" ", "-", "  ", " - ", "'"];
+    let mut titles: Vec<String> = words.clone();
+    for w1 in words.iter().filter(|w| w.chars().count() <= 2) { for w2 in words.iter().filter(|w| w.chars().count() <= 2) { for g in &gaps { titles.push(format!("{}{}{}", w1, g, w2)); } } }
+    for title in titles {
+        let scn = Scn { lang: code.to_string(), recs: vec![(1, title.clone(), 1)], limit: 1 };
+        let mut st = scn.build();
+        let t = tokenize_record(&title, &lang);
+        let mut queries: Vec<(String, bool)> = vec![];   // (query, record must be found)
+        for wi in 0..t.words.len() {
+            let cs = wchars(&t, wi);
+            for k in 1..=cs.len() {
+                if !cs[k - 1].is_alphanumeric() { continue; }
+                let q: String = cs[..k].iter().collect();
+                let ok = one_word_query(&lang, &q, &cs[..k], true);
+                if which == "C03" || which == "C09" { queries.push((q, ok)); }
+            }
+            if which != "C03" && cs.len() >= 3 {
+                for sp in 1..cs.len() {
+                    let q = format!("{} {}", cs[..sp].iter().collect::<String>(), cs[sp..].iter().collect::<String>());
+                    let tq = tokenize_query(&q, &lang);
+                    let ok = tq.words.len() == 2 && wchars(&tq, 0) == cs[..sp].to_vec() && wchars(&tq, 1) == cs[sp..].to_vec();
+                    queries.push((q, ok && which == "C14"));
+                }
+            }
+            if which != "C03" && wi + 1 < t.words.len() {
+                let mut joined = cs.clone(); joined.extend(wchars(&t, wi + 1));
+                let q: String = joined.iter().collect();
+                let tq = tokenize_query(&q, &lang);
+                let one_sep = t.words[wi + 1].slice.0 == t.words[wi].slice.1 + 1;
+                let ok = one_sep && joined.len() >= 3 && tq.words.len() == 1 && wchars(&tq, 0) == joined && tq.words[0].stem == joined.len();
+                queries.push((q.clone(), ok && which == "C14"));
+                for tail in &["1", "11", "a", "bb"] { queries.push((format!("{}{}", cs.iter().collect::<String>(), tail), false)); }
+            }
+        }
+        for (q, must_find) in queries {
+            p.eval(&format!("x|{}|{}|{}", code, title, q), must_find);
+            let res = guarded(|| search_marked(&mut st, &q));
+            let hits = match res { Ok(h) => h, Err(e) => { p.fail(format!("search {:?} on title {:?} panicked: {}", q, title, e), scn.case("small-scope", vec![Op::Search(q.clone())])); return; } };
+            if must_find && !hits.iter().any(|h| h.0 == 1) {
+                p.fail(format!("[{}] query {:?} does not find the title {:?}", which, q, title), scn.case("small-scope", vec![Op::Search(q.clone())]));
+            }
+            if let Err(e) = hit_invariants(&lang, &scn, &q, &hits) {
+                p.fail(format!("[{}] title {:?} query {:?}: {}", which, title, q, e), scn.case("small-scope", vec![Op::Markers(ML.to_string(), MR.to_string()), Op::Search(q.clone())]));
+            }
+            if p.failures.len() >= 6 { return; }
+        }
+    }
+}
+
 // ---------------- C01: never panic ----------------
 fn p01(p: &mut ProbeReport, r: &mut Rng, budget: usize) {
     // witnesses of the fixed defect D1 first (regression corpus), then adversarial stores
@@ -216,6 +315,8 @@ fn p02(p: &mut ProbeReport, r: &mut Rng, budget: usize) {
 
 // ---------------- C03: any prefix of any title word finds the record ----------------
 fn p03(p: &mut ProbeReport, r: &mut Rng, budget: usize) {
+    for code in LANGS.iter() { small_scope_titles(p, code, "C03", if budget > 20000 { 3 } else { 2 }); }
+    let budget = budget + p.evaluations;
     let mut i = 0;
     while p.evaluations < budget {
         let code = LANGS[i % LANGS.len()]; i += 1;
@@ -369,8 +470,38 @@ fn p05(p: &mut ProbeReport, r: &mut Rng, budget: usize) {
 
 fn ids(h: &[(usize, String)]) -> Vec<usize> { h.iter().map(|x| x.0).collect() }
 
+/// stores in which many records are hits, with limits large enough that the bounded selection compacts its
+/// buffer more than once (hits between 2*limit-1 and 3*limit+1), in several insertion orders
+fn compaction_stress(p: &mut ProbeReport, r: &mut Rng, which: &str, rounds: usize) {
+    let colors = ["red", "blue", "green", "black", "white", "pink", "grey", "gold", "teal", "plum", "lime", "navy", "rose", "sand", "mint", "ruby", "jade", "onyx", "opal", "fawn",
+                  "aqua", "buff", "cyan", "dune", "ecru", "fern", "iris", "kiwi", "lava", "moss", "nude", "oak", "pear", "rust", "sage", "tan", "umber", "wine", "zinc", "amber", "beige", "coral", "denim", "ebony"];
+    for round in 0..rounds {
+        for limit in [9usize, 10, 12].iter() {
+            let lo = 2 * limit - 1; let hi = (3 * limit + 1).min(colors.len());
+            for n in lo..=hi {
+                let mut used = vec![];
+                let recs: Vec<(usize, String, usize)> = (0..n).map(|k| { let rating = loop { let x = r.below(100000); if !used.contains(&x) { used.push(x); break x; } }; (k + 1, format!("{} desk lamp", colors[k]), rating) }).collect();
+                let q = *r.pick(&["lamp", "desk", "desk lamp", "lam"]);
+                let reference = { let mut sorted = recs.clone(); sorted.sort_by(|a, b| b.2.cmp(&a.2)); sorted };
+                let mut order = recs.clone();
+                r.shuffle(&mut order);
+                let scn = Scn { lang: "none".into(), recs: order, limit: *limit };
+                let hits = ids(&search_results(&scn.build(), q));
+                let want: Vec<usize> = reference.iter().take(*limit).map(|e| e.0).collect();
+                p.eval(&format!("compaction|{}|{}|{}|{}|{}", which, round, limit, n, q), true);
+                if hits != want {
+                    p.fail(format!("[{}] {} records all matching {:?}, limit {}: hits {:?} but the {} best-rated are {:?} (insertion order matters / wrong prefix of the unlimited list)", which, n, q, limit, hits, limit, want), scn.case("compaction", vec![Op::Search(q.to_string())]));
+                    return;
+                }
+            }
+        }
+    }
+}
+
 // ---------------- C06: each record's own verdict, cut to the best `limit` ----------------
 fn p06(p: &mut ProbeReport, r: &mut Rng, budget: usize) {
+    compaction_stress(p, r, "C06", if budget > 5000 { 12 } else { 2 });
+    let budget = budget + p.evaluations;
     let mut i = 0;
     while p.evaluations < budget {
         let code = LANGS[i % LANGS.len()]; i += 1;
@@ -413,6 +544,8 @@ fn p06(p: &mut ProbeReport, r: &mut Rng, budget: usize) {
 
 // ---------------- C07: consistent order, independent of other records and insert order ----------------
 fn p07(p: &mut ProbeReport, r: &mut Rng, budget: usize) {
+    compaction_stress(p, r, "C07", if budget > 5000 { 12 } else { 2 });
+    let budget = budget + p.evaluations;
     let mut i = 0;
     while p.evaluations < budget {
         let code = LANGS[i % LANGS.len()]; i += 1;
@@ -520,6 +653,8 @@ fn p08(p: &mut ProbeReport, r: &mut Rng, budget: usize) {
 
 // ---------------- C09: highlight markup balanced, word-aligned ----------------
 fn p09(p: &mut ProbeReport, r: &mut Rng, budget: usize) {
+    for code in LANGS.iter() { small_scope_titles(p, code, "C09", if budget > 20000 { 3 } else { 2 }); }
+    let budget = budget + p.evaluations;
     let mut i = 0;
     while p.evaluations < budget {
         let code = LANGS[i % LANGS.len()]; i += 1;
@@ -806,6 +941,8 @@ fn p13(p: &mut ProbeReport, r: &mut Rng, budget: usize) {
 
 // ---------------- C14: split and joined spellings ----------------
 fn p14(p: &mut ProbeReport, r: &mut Rng, budget: usize) {
+    for code in LANGS.iter() { small_scope_titles(p, code, "C14", 3); }
+    let budget = budget + p.evaluations;
     let mut i = 0;
     while p.evaluations < budget {
         let code = LANGS[i % LANGS.len()]; i += 1;
